@@ -8,6 +8,14 @@
 //	preal  <builder> <hex|->  the REAL operation (handler / store function) inside a sandbox; the path is what the
 //	                          file system shows afterwards (created / deleted / read file)  → accept:… | reject | unsafe
 //
+//	pdecode <hex|->           real url.PathUnescape                   → <hex|-> | err
+//	ptags <same|prom|fresh> <n> <hex|-> …   n samples of ONE series with these tag keys through the real metrics entry
+//	                          point: `same` = one TagsHolder for all samples (what prometheus remote write does), `prom` = a
+//	                          real remote-write request through HandlePutMetrics, `fresh` = one holder per sample (OTSDB)
+//	                          → acc=<k> rej=<m>; afterwards the tags trees are flushed and the sandbox is inspected
+//	pdel <hex>                the REAL ProcessDeleteIndex on a request value, table = two freshly ingested indexes @A@, @B@,
+//	                          victim directories beside the data dir → <status> <removed directories|-> | unsafe
+//
 // Sandbox: /tmp/c19-XXXX/o/data/ is the data dir; everything in /tmp/c19-XXXX but not below o/data is "outside".
 // A real operation is only executed when its target stays inside /tmp/c19-XXXX (otherwise `unsafe`, not executed).
 // PropFail (independent of the Lean model): the path built / the file touched by the real code is not inside the data dir.
@@ -31,7 +39,12 @@ import (
 	"strings"
 	"sync"
 
+	"github.com/buger/jsonparser"
 	"github.com/fasthttp/router"
+	"github.com/gogo/protobuf/proto"
+	"github.com/golang/snappy"
+	"github.com/prometheus/prometheus/prompb"
+	prometheuswriter "github.com/siglens/siglens/pkg/integrations/prometheus/ingest"
 	"github.com/siglens/siglens/pkg/config"
 	"github.com/siglens/siglens/pkg/dashboards"
 	eswriter "github.com/siglens/siglens/pkg/es/writer"
@@ -150,6 +163,14 @@ func c19Name(r *rand.Rand) string {
 // names for the real operations: short, mostly shallow (≤ 2 levels above the data dir stays inside the sandbox)
 func c19RealName(r *rand.Rand, b string) string {
 	route := b == "lookupGet" || b == "lookupDelete" || b == "mappingFile"
+	if !route && r.Intn(5) == 0 { // the escape spelled with percent-escapes: passes a check of the raw string
+		return c19Encode(r, c19RealNameRaw(r, b))
+	}
+	return c19RealNameRaw(r, b)
+}
+
+func c19RealNameRaw(r *rand.Rand, b string) string {
+	route := b == "lookupGet" || b == "lookupDelete" || b == "mappingFile"
 	if route && r.Intn(10) < 7 {
 		return c19Pick(r, []string{"..", ".", "a", "a.csv", "s.csv", "%2e%2e%2fa", "..%2f..%2fa.csv", "é", "...", "..a", "a\\..\\b", "x.csv.gz", "%2e%2e", "..\\", ".csv"})
 	}
@@ -199,6 +220,36 @@ func c19RealName(r *rand.Rand, b string) string {
 	return sb.String()
 }
 
+// percent-encode some or all of the separators and dots of a name (what a client does to get a name past a check that
+// looks at the raw string)
+func c19Encode(r *rand.Rand, v string) string {
+	mode := r.Intn(4)
+	var sb strings.Builder
+	for i := 0; i < len(v); i++ {
+		c := v[i]
+		enc := false
+		switch mode {
+		case 0:
+			enc = c == '/'
+		case 1:
+			enc = c == '/' || c == '.'
+		case 2:
+			enc = (c == '/' || c == '.') && r.Intn(2) == 0
+		default:
+			enc = r.Intn(6) == 0
+		}
+		if enc {
+			fmt.Fprintf(&sb, c19Pick(r, []string{"%%%02x", "%%%02X"}), c)
+		} else {
+			sb.WriteByte(c)
+		}
+	}
+	if r.Intn(12) == 0 {
+		sb.WriteString(c19Pick(r, []string{"%", "%2", "%zz", "%%"}))
+	}
+	return sb.String()
+}
+
 func c19PathString(r *rand.Rand) string {
 	if r.Intn(3) == 0 {
 		return c19Name(r)
@@ -239,8 +290,57 @@ func c19Gen(r *rand.Rand, n int, tier string) []string {
 			out = append(out, l)
 		}
 	}
+	for _, l := range []string{"pdecode -", "pdecode " + c19Hex("..%2F..%2Fx"), "pdecode " + c19Hex("a%2"), "pdecode " + c19Hex("%zz"), "pdecode " + c19Hex("a+b%41%2f"), "pdecode zz",
+		"ptags same 3 " + c19Hex("host") + " " + c19Hex("../../../../../../x"), "ptags prom 3 " + c19Hex("../../../../../../../x"), "ptags fresh 2 " + c19Hex("../x"),
+		"ptags same 2", "ptags same 0 " + c19Hex("a"), "ptags nosuch 2 " + c19Hex("a"), "ptags prom 4 " + c19Hex("host") + " " + c19Hex("k8s.pod.name"), "ptags same 2 -",
+		"pdel " + c19Hex("@A@"), "pdel " + c19Hex("../../../victim"), "pdel " + c19Hex("@A@,../../../victim"), "pdel " + c19Hex("cluster:../../../victim"), "pdel " + c19Hex("*"), "pdel " + c19Hex("@A@,@B@,@A@"),
+		"pdel " + c19Hex("nosuch"), "pdel " + c19Hex("traces"), "pdel " + c19Hex("../../../../../x"), "pdel zz", "pdel -",
+		"preal lookupUpload " + c19Hex("..%2F..%2Fx"), "preal lookupUpload " + c19Hex("%2e%2e%2fx.csv"), "preal lookupUpload " + c19Hex("..%2Fq")} {
+		if len(out) < n {
+			out = append(out, l)
+		}
+	}
 	for len(out) < n {
-		switch k := r.Intn(100); {
+		switch k := r.Intn(112); {
+		case k >= 100 && k < 103:
+			out = append(out, "pdecode "+c19Hex(c19Encode(r, c19Name(r))))
+		case k >= 103 && k < 108: // a series of 2..5 samples; one hostile key among ordinary ones, mostly NOT in first place
+			mode := c19Pick(r, []string{"same", "same", "prom", "prom", "fresh"})
+			nk := 1 + r.Intn(3)
+			keys := make([]string, nk)
+			for i := range keys {
+				keys[i] = c19Hex(c19Pick(r, []string{"host", "job", "k8s.pod.name", "a b", "...", "..a", "é", "%2e%2e", "region"}))
+			}
+			if r.Intn(4) > 0 {
+				h := strings.Repeat("../", r.Intn(9)) + c19Pick(r, []string{"x", "victim", "outside.txt", "..", "", "a/b"})
+				if r.Intn(5) == 0 {
+					h = c19RealName(r, "tagsTreeFile")
+				}
+				keys[r.Intn(nk)] = c19Hex(h)
+			}
+			out = append(out, fmt.Sprintf("ptags %s %d %s", mode, 2+r.Intn(4), strings.Join(keys, " ")))
+		case k >= 108:
+			var parts []string
+			for i := 1 + r.Intn(3); i > 0; i-- {
+				switch r.Intn(6) {
+				case 0:
+					parts = append(parts, "@A@")
+				case 1:
+					parts = append(parts, "@B@")
+				case 2:
+					parts = append(parts, c19Pick(r, []string{"nosuch", "@A@x", "x@B@", "..", ".", "é"}))
+				default:
+					parts = append(parts, c19Pick(r, []string{"", "@A@/", "p/"})+strings.Repeat("../", r.Intn(6))+c19Pick(r, []string{"victim", "victim/", "outside.txt", "@A@", "", ".."}))
+				}
+			}
+			req := strings.Join(parts, ",")
+			if r.Intn(5) == 0 {
+				req = c19Pick(r, []string{"cluster:", "c:", ":", "a:b:"}) + req
+			}
+			if r.Intn(20) == 0 {
+				req = c19Pick(r, []string{"traces", ",", "", "@A@,@B@"})
+			}
+			out = append(out, "pdel "+c19Hex(req))
 		case k < 22:
 			out = append(out, "pclean "+c19Hex(c19PathString(r)))
 		case k < 32:
@@ -468,6 +568,30 @@ func c19Exec(line string) Result {
 			return bad
 		}
 		return Result{Out: c19Hex(filepath.Join(a, b)), Nontrivial: true, Tags: []string{"pjoin"}}
+	case "pdecode":
+		if len(tok) != 2 {
+			return bad
+		}
+		v, ok := c19Unhex(tok[1])
+		if !ok {
+			return bad
+		}
+		d, err := url.PathUnescape(v)
+		if err != nil {
+			return Result{Out: "err", Nontrivial: true, Tags: []string{"pdecode", "pdecode:err"}}
+		}
+		return Result{Out: c19Hex(d), Nontrivial: strings.Contains(v, "%"), Tags: []string{"pdecode"}}
+	case "ptags":
+		return c19Tags(tok)
+	case "pdel":
+		if len(tok) != 2 {
+			return bad
+		}
+		v, ok := c19Unhex(tok[1])
+		if !ok {
+			return bad
+		}
+		return c19Del(v)
 	case "pbuild", "preal":
 		if len(tok) != 3 {
 			return bad
@@ -584,24 +708,58 @@ func c19Real(s *c19Sandbox, b, v string) (string, []PropFail, []string, bool) {
 			return "route-param-differs", nil, []string{"route-param-differs"}, true
 		}
 	}
-	switch b {
-	case "lookupUpload":
-		target = filepath.Join(lp, c19UploadNameMirror(v))
-	case "lookupGet", "lookupDelete", "inputlookup":
-		target = filepath.Join(lp, v)
-	case "aliasFile":
-		target, concat = vtable.VTableAliasesDir+v+".json", true
-	case "mappingFile":
-		target, concat = vtable.VTableMappingsDir+v+".json", true
-	case "suffixFile", "baseSegDir": // same depth below the data dir: <data>/H/suffix/<v>/… and <data>/H/final/<v>/…
-		target, concat = config.GetSuffixFile(v, c19SID), true
-	case "tagsTreeFile":
-		target, concat = metrics.GetFinalTagsTreeDir(c19MID, 0)+v, true
-	default:
+	targetOf := func(v string) (string, bool, bool) {
+		switch b {
+		case "lookupUpload":
+			return filepath.Join(lp, c19UploadNameMirror(v)), false, true
+		case "lookupGet", "lookupDelete", "inputlookup":
+			return filepath.Join(lp, v), false, true
+		case "aliasFile":
+			return vtable.VTableAliasesDir + v + ".json", true, true
+		case "mappingFile":
+			return vtable.VTableMappingsDir + v + ".json", true, true
+		case "suffixFile", "baseSegDir": // same depth below the data dir: <data>/H/suffix/<v>/… and <data>/H/final/<v>/…
+			return config.GetSuffixFile(v, c19SID), true, true
+		case "tagsTreeFile":
+			return metrics.GetFinalTagsTreeDir(c19MID, 0) + v, true, true
+		}
+		return "", false, false
+	}
+	var knownB bool
+	if target, concat, knownB = targetOf(v); !knownB {
 		return "", nil, nil, false
 	}
 	if strings.ContainsRune(v, 0) {
 		return "bad-op", nil, nil, true
+	}
+	if s.inRoot(target) {
+		// the harness must stay inside its sandbox even when the code under test DECODES the name before it joins it
+		// (percent-escapes, backslashes): such a name is executed only if its decoded spellings stay inside, too.
+		// Otherwise the answer is what the real validator + the real builder say, without touching the file system.
+		for _, c := range c19Variants(v) {
+			if t, _, _ := targetOf(c); !s.inRoot(t) {
+				refused := false
+				switch b {
+				case "lookupUpload":
+					refused = !utils.IsSimpleFileName(v)
+				case "lookupGet", "lookupDelete":
+				case "inputlookup":
+					refused = !utils.IsSimpleFileName(v) || !(strings.HasSuffix(v, ".csv") || strings.HasSuffix(v, ".csv.gz"))
+				case "aliasFile", "mappingFile", "suffixFile", "baseSegDir":
+					refused = !vtable.IsValidIndexName(v)
+				case "tagsTreeFile":
+					refused = !metrics.VerifTagKeyAccepted(v)
+				}
+				if refused {
+					return "reject", nil, []string{"reject", "gate:validator", "decoded-spelling-leaves-sandbox"}, true
+				}
+				built := target
+				if b == "baseSegDir" {
+					built = config.GetBaseSegDir(c19SID, v, 0)
+				}
+				return s.acceptLine(built), s.checkBuilt(b, v, built), []string{"not-executed", "decoded-spelling-leaves-sandbox"}, true
+			}
+		}
 	}
 	if !s.inRoot(target) {
 		// outside the sandbox the operation itself is never executed; whether the name is refused is asked of the real
@@ -891,6 +1049,11 @@ func c19Variants(v string) []string {
 	}
 	if d, err := url.QueryUnescape(v); err == nil {
 		add(d)
+		if d2, err := url.QueryUnescape(d); err == nil {
+			add(d2)
+			add(strings.ReplaceAll(d2, "\\", "/"))
+		}
+		add(strings.ReplaceAll(d, "\\", "/"))
 	}
 	add(strings.ReplaceAll(v, "\\", "/"))
 	add(strings.TrimSpace(v))
@@ -913,4 +1076,256 @@ func c19Filter(l []c19Change, keep func(c19Change) bool) []c19Change {
 func c19FileContains(p, mk string) bool {
 	b, err := os.ReadFile(p)
 	return err == nil && bytes.Contains(b, []byte(mk))
+}
+
+// ---------------------------------------------------------------- ptags: a multi-sample series through the real TagsHolder
+
+func c19Tags(tok []string) Result {
+	bad := Result{Out: "bad-op", Tags: []string{"bad-op"}}
+	if len(tok) < 3 || (tok[1] != "same" && tok[1] != "prom" && tok[1] != "fresh") {
+		return bad
+	}
+	mode := tok[1]
+	var n int
+	if _, err := fmt.Sscanf(tok[2], "%d", &n); err != nil || fmt.Sprint(n) != tok[2] || n < 1 || n > 16 {
+		return bad
+	}
+	var keys []string
+	for _, h := range tok[3:] {
+		k, ok := c19Unhex(h)
+		if !ok {
+			return bad
+		}
+		keys = append(keys, k)
+	}
+	s := c19Env()
+	tags := []string{"ptags:" + mode, fmt.Sprintf("ptags:samples=%d", n)}
+	allSimple := true
+	hostileAt := -1
+	for i, k := range keys {
+		if !utils.IsSimpleFileName(k) {
+			allSimple = false
+			if hostileAt < 0 {
+				hostileAt = i
+			}
+		}
+	}
+	if !allSimple {
+		tags = append(tags, "ptags:hostile-key", fmt.Sprintf("ptags:hostile-at=%d", hostileAt))
+	}
+	answer := func(acc, rej int) string { return fmt.Sprintf("acc=%d rej=%d", acc, rej) }
+	// stay inside the sandbox whatever the code does with the key
+	for _, k := range keys {
+		for _, c := range append([]string{k}, c19Variants(k)...) {
+			if strings.ContainsRune(c, 0) || !s.inRoot(metrics.GetFinalTagsTreeDir(c19MID, 0)+c) {
+				ok := true
+				for _, k2 := range keys {
+					ok = ok && metrics.VerifTagKeyAccepted(k2)
+				}
+				if ok {
+					return Result{Out: answer(n, 0), Nontrivial: true, Tags: append(tags, "gate:validator")}
+				}
+				return Result{Out: answer(0, n), Nontrivial: true, Tags: append(tags, "gate:validator")}
+			}
+		}
+	}
+	s.reset()
+	mk := s.marker()
+	// every directory a hostile key would walk through exists (as in a live system)
+	for _, k := range keys {
+		t := metrics.GetFinalTagsTreeDir(c19MID, 0) + k
+		for i := 0; i < len(t); i++ {
+			if t[i] == '/' {
+				if d := filepath.Clean(t[:i+1]); s.inRoot(d) {
+					os.MkdirAll(d, 0o755)
+				}
+			}
+		}
+	}
+	mName := []byte("c19m" + mk)
+	before := s.snapshot()
+	acc, rej := 0, 0
+	other := ""
+	switch mode {
+	case "same":
+		th := metrics.GetTagsHolder()
+		for _, k := range keys {
+			th.Insert(k, []byte(mk), jsonparser.String)
+		}
+		for i := 0; i < n; i++ {
+			err := metrics.EncodeDatapoint(mName, th, float64(i+1), uint32(1700000000+i), 10, 0)
+			switch {
+			case err == nil:
+				acc++
+			case strings.Contains(err.Error(), "invalid tag key"):
+				rej++
+			default:
+				other = err.Error()
+			}
+		}
+	case "prom":
+		ts := prompb.TimeSeries{Labels: []prompb.Label{{Name: "__name__", Value: string(mName)}}}
+		for _, k := range keys {
+			ts.Labels = append(ts.Labels, prompb.Label{Name: k, Value: mk})
+		}
+		for i := 0; i < n; i++ {
+			ts.Samples = append(ts.Samples, prompb.Sample{Value: float64(i + 1), Timestamp: int64(1700000000+i) * 1000})
+		}
+		b, _ := proto.Marshal(&prompb.WriteRequest{Timeseries: []prompb.TimeSeries{ts}})
+		ok, failed, err := prometheuswriter.HandlePutMetrics(snappy.Encode(nil, b), 0)
+		if err != nil {
+			other = err.Error()
+		}
+		acc, rej = int(ok), int(failed)
+	case "fresh":
+		tagObj := map[string]string{}
+		for _, k := range keys {
+			tagObj[k] = mk
+		}
+		if len(tagObj) != len(keys) {
+			tags = append(tags, "ptags:duplicate-keys")
+		}
+		for i := 0; i < n; i++ {
+			tj, _ := json.Marshal(tagObj)
+			payload := []byte(fmt.Sprintf(`{"metric":%q,"tags":%s,"timestamp":%d,"value":%d}`, mName, tj, 1700000000+i, i+1))
+			th := metrics.GetTagsHolder()
+			m2, dp, ts, err := metrics.ExtractOTSDBPayload(payload, th)
+			if err == nil {
+				err = metrics.EncodeDatapoint(m2, th, dp, ts, uint64(len(payload)), 0)
+			}
+			switch {
+			case err == nil:
+				acc++
+			case strings.Contains(err.Error(), "invalid tag key"):
+				rej++
+			default:
+				other = err.Error()
+			}
+		}
+	}
+	metrics.ForceFlushMetricsBlock()
+	var fails []PropFail
+	for _, c := range c19Diff(before, s.snapshot()) {
+		// only files that carry THIS series' tag value: the engine keeps its tags trees in memory, so a file a former
+		// operation is responsible for would be written again by every later flush
+		if c.kind != "deleted" && !c19IsDir(c.path) && c19Escapes(s.rel(c.path)) && c19FileContains(c.path, mk) {
+			fails = append(fails, PropFail{Sig: "path-escape/tagsTreeFile", Msg: fmt.Sprintf("series of %d samples (%s) with tag keys %q: after the flush the file %q (relative to the data dir) was %s — outside the data dir, confirmed on the file system", n, mode, keys, s.rel(c.path), c.kind)})
+			tags = append(tags, "exploit-confirmed")
+			break
+		}
+	}
+	if acc > 0 && !allSimple {
+		fails = append(fails, PropFail{Sig: "tagkey-accepted/" + mode, Msg: fmt.Sprintf("series of %d samples (%s) with tag keys %q: %d datapoint(s) were accepted although a key is not a simple file name (tag keys become tags-tree file names)", n, mode, keys, acc)})
+	}
+	out := answer(acc, rej)
+	if other != "" {
+		out = "error:" + other
+	}
+	return Result{Out: out, Fails: fails, Nontrivial: !allSimple || n > 1, Tags: tags}
+}
+
+// ---------------------------------------------------------------- pdel: the real delete-index handler
+
+// mirror of the candidate expansion, ONLY to decide whether the request may be executed inside the sandbox
+func c19DelCands(v string) []string {
+	if i := strings.Index(v, ":"); i >= 0 {
+		v = v[i+1:]
+	}
+	return strings.Split(v, ",")
+}
+
+func c19Del(v string) Result {
+	s := c19Env()
+	tags := []string{"pdel"}
+	if strings.ContainsRune(v, 0) || strings.Contains(v, "*") {
+		return Result{Out: "bad-op", Tags: []string{"bad-op"}}
+	}
+	final := config.GetDataPath() + config.GetHostID() + "/final/"
+	for _, c := range c19DelCands(v) {
+		if !s.inRoot(final + c + "/") {
+			return Result{Out: "unsafe", Tags: append(tags, "unsafe"), Nontrivial: true}
+		}
+		for _, c2 := range c19Variants(c) {
+			if !s.inRoot(final + c2 + "/") {
+				return Result{Out: "skipped-decoded-spelling-leaves-sandbox", Tags: append(tags, "skipped")}
+			}
+		}
+	}
+	s.reset()
+	s.counter++
+	a, b := fmt.Sprintf("c19a%d", s.counter), fmt.Sprintf("c19b%d", s.counter)
+	for _, idx := range []string{a, b} {
+		var stackBuf [4096]byte
+		tsKey := config.GetTimeStampKey()
+		ple, err := writer.GetNewPLE([]byte(`{"m":"c19"}`), 1700000000000, idx, &tsKey, stackBuf[:])
+		if err != nil {
+			return Result{Out: "harness-error:" + err.Error()}
+		}
+		err = eswriter.ProcessIndexRequestPle(1700000000000, idx, true, map[string]string{}, 0, 0, map[string]string{}, map[uint64]string{}, stackBuf[:], []*writer.ParsedLogEvent{ple})
+		writer.ReleasePLEs([]*writer.ParsedLogEvent{ple})
+		if err != nil {
+			return Result{Out: "harness-error:" + err.Error()}
+		}
+	}
+	// victims beside the data dir, and every directory a hostile name walks through
+	must(os.MkdirAll(s.root+"/victim", 0o755))
+	must(os.WriteFile(s.root+"/victim/important.txt", []byte("x"), 0o644))
+	must(os.MkdirAll(s.root+"/o/victim", 0o755))
+	must(os.WriteFile(s.root+"/o/victim/important.txt", []byte("x"), 0o644))
+	req := strings.ReplaceAll(strings.ReplaceAll(v, "@A@", a), "@B@", b)
+	for _, c := range c19DelCands(req) {
+		t := final + c + "/"
+		for i := len(final); i < len(t); i++ {
+			if t[i] == '/' {
+				if d := filepath.Clean(t[:i+1]); s.inRoot(d) && !strings.HasSuffix(filepath.Clean(t[:i]), "..") {
+					if _, err := os.Lstat(d); err != nil && !strings.Contains(d, "victim") {
+						os.MkdirAll(d, 0o755)
+					}
+				}
+			}
+		}
+	}
+	before := s.snapshot()
+	ctx := &fasthttp.RequestCtx{}
+	ctx.Request.Header.SetMethod("DELETE")
+	ctx.SetUserValue("indexName", req)
+	eswriter.ProcessDeleteIndex(ctx, 0)
+	status := ctx.Response.StatusCode()
+	after := s.snapshot()
+	var removed []string
+	var fails []PropFail
+	for _, c := range c19Diff(before, after) {
+		if c.kind != "deleted" {
+			continue
+		}
+		if _, parentGone := before[filepath.Dir(c.path)]; parentGone {
+			if _, still := after[filepath.Dir(c.path)]; !still {
+				continue // reported through its parent
+			}
+		}
+		rel := s.rel(c.path)
+		if c19Escapes(rel) {
+			fails = append(fails, PropFail{Sig: "path-escape/deleteIndex", Msg: fmt.Sprintf("DELETE index %q removed %q (relative to the data dir), outside the data dir — confirmed on the file system", v, rel)})
+			tags = append(tags, "exploit-confirmed")
+		}
+		if before[c.path] == "dir" && (c19Escapes(rel) || strings.HasPrefix(rel, "H/final/")) {
+			rel = strings.ReplaceAll(strings.ReplaceAll(rel, a, "@A@"), b, "@B@")
+			removed = append(removed, c19Hex(rel))
+		}
+	}
+	sort.Strings(removed)
+	// leave no segment stores of the two indexes behind
+	writer.DeleteVirtualTableSegStore(a)
+	writer.DeleteVirtualTableSegStore(b)
+	out := fmt.Sprintf("%d ", status)
+	if len(removed) == 0 {
+		out += "-"
+	} else {
+		out += strings.Join(removed, ",")
+	}
+	hostile := strings.Contains(v, "..") || strings.Contains(v, "/")
+	if hostile {
+		tags = append(tags, "pdel:hostile")
+	}
+	return Result{Out: out, Fails: fails, Nontrivial: hostile, Tags: tags}
 }
